@@ -150,6 +150,14 @@ type Case struct {
 	// (Graph / Workflow / nested, as graph_kind says) hosting the node: the first calls on the freshly compiled
 	// object run concurrently, the later call is another run of the same compiled object
 	SharedIn string `json:"shared_in,omitempty"`
+	// what the caller does with the *ToolsNodeConfig VALUE it handed to NewToolNode, after NewToolNode has returned
+	// and before the node's first call (the node is what its configuration was when it was created; the value stays
+	// the caller's, e.g. to derive the configuration of a second node from it): "" = nothing, flip = the
+	// unknown-tool handler is replaced by the opposite setting (removed if there was one; another node's handler, which
+	// answers every name, if there was none), every entry of the tool slice is overwritten by another node's tool
+	// of the same name, and a second node is built from the edited value; zero = the entries of the tool slice are
+	// set to nil and the whole value to its zero value, and a second node is built from that
+	ConfEdit string `json:"conf_edit,omitempty"`
 }
 
 // the assistant message as the chunks of a model's output stream (they concatenate to c.message())
@@ -859,7 +867,55 @@ func buildNode(rc *recorder) (*compose.ToolsNode, error) {
 	if p := lib.Recover(func() { tn, err = compose.NewToolNode(context.Background(), conf) }); p != nil {
 		return nil, fmt.Errorf("NewToolNode panicked: %v", p)
 	}
+	if err == nil && c.ConfEdit != "" {
+		editConfig(c.ConfEdit, conf)
+	}
 	return tn, err
+}
+
+// another node's tool: it answers the same name, with an output no tool of the case gives, and is not recorded
+type foreignTool struct{ name string }
+
+func (f *foreignTool) Info(context.Context) (*schema.ToolInfo, error) {
+	return &schema.ToolInfo{Name: f.name, Desc: "another node's " + f.name}, nil
+}
+func (f *foreignTool) InvokableRun(context.Context, string, ...tool.Option) (string, error) {
+	return "foreign:" + f.name, nil
+}
+func (f *foreignTool) StreamableRun(context.Context, string, ...tool.Option) (*schema.StreamReader[string], error) {
+	return schema.StreamReaderFromArray([]string{"foreign:" + f.name}), nil
+}
+
+// The caller goes on using the configuration value it created the node from (see Case.ConfEdit). Nothing of this
+// may show in the node: the edits are made to memory the caller owns (its struct, its slice), and what a node
+// answers is decided by the configuration it was created with.
+func editConfig(how string, conf *compose.ToolsNodeConfig) {
+	switch how {
+	case "flip":
+		if conf.UnknownToolsHandler != nil {
+			conf.UnknownToolsHandler = nil
+		} else {
+			conf.UnknownToolsHandler = func(_ context.Context, name, _ string) (string, error) {
+				return "foreign-handler:" + name, nil
+			}
+		}
+		for i, t := range conf.Tools {
+			name := "zz"
+			if t != nil {
+				if info, err := t.Info(context.Background()); err == nil && info != nil {
+					name = info.Name
+				}
+			}
+			conf.Tools[i] = &foreignTool{name}
+		}
+	case "zero":
+		for i := range conf.Tools {
+			conf.Tools[i] = nil
+		}
+		*conf = compose.ToolsNodeConfig{}
+	}
+	// the second node the caller derives from the edited value (built and dropped)
+	lib.Recover(func() { _, _ = compose.NewToolNode(context.Background(), conf) })
 }
 
 func (c *Case) message() *schema.Message {
@@ -1165,11 +1221,15 @@ func (rc *recorder) settle(o *RunObs, c *Case) {
 	if slowSettles >= 5 {
 		limit = 400
 	}
+	// the call returned every answer (the stream was read to its end): every body it was going to enter has been
+	// entered, an execution that has not started by now will not start; what is awaited is only the return of
+	// the bodies that are running
+	complete := o.Class == "msgs" || (o.Class == "chunks" && o.Fin == nil)
 	for w := 0; ; w++ {
 		rc.mu.Lock()
 		st, cp := len(rc.started), len(rc.completed)
 		rc.mu.Unlock()
-		if st == cp && (st == 0 || st >= expect) {
+		if st == cp && (st == 0 || st >= expect || complete) {
 			break
 		}
 		if w >= limit {
@@ -2411,6 +2471,7 @@ func genCase(r *lib.Rng, tier string) *Case {
 	if r.Chance(1, 2) {
 		c.SharedIn = "graph"
 	}
+	c.ConfEdit = r.Pick([]string{"flip", "flip", "zero", ""})
 	return c
 }
 
@@ -2449,6 +2510,11 @@ func (engine) Decode(raw json.RawMessage) (any, error) {
 	case "", "branch", "fanout", "copy":
 	default:
 		return nil, fmt.Errorf("fan %q", c.Fan)
+	}
+	switch c.ConfEdit {
+	case "", "flip", "zero":
+	default:
+		return nil, fmt.Errorf("conf_edit %q", c.ConfEdit)
 	}
 	lists := [][]ToolDef{c.Tools}
 	for _, o := range c.optSeq() {
@@ -2720,6 +2786,7 @@ func (engine) runCase(c *Case) lib.Result {
 	}
 	res.Tags = append(res.Tags, "shared-runs-share:"+map[string]string{"": "the-node", "graph": "a-compiled-graph-hosting-the-node"}[c.SharedIn])
 	res.Tags = append(res.Tags, "shared-node-stream-read:"+map[bool]string{false: "at-once", true: "after-the-later-call"}[c.Lazy])
+	res.Tags = append(res.Tags, "callers-config-value-after-NewToolNode:"+map[string]string{"": "untouched", "flip": "handler-flipped+tools-overwritten", "zero": "zeroed"}[c.ConfEdit])
 	if malformed > 0 {
 		res.Tags = append(res.Tags, "malformed:arguments")
 	}
@@ -2788,9 +2855,27 @@ func min(a, b int) int {
 	return b
 }
 
+// the time one process spends on minimising failing cases, in all
+const shrinkBudget = 8 * time.Second
+
+var shrinkSpent time.Duration
+
 // Shrink: drop calls, then call options, then delays, while the same oracle failure persists.
-func (engine) Shrink(ci any, stillFails func(any) bool) any {
+func (engine) Shrink(ci any, stillFailsAll func(any) bool) any {
 	c := ci.(*Case)
+	// a change of the code that makes a whole class of cases fail gives dozens of failing cases per run: the first
+	// ones are minimised, the others are reported as generated once the time set aside for minimising is used up
+	if shrinkSpent >= shrinkBudget {
+		return ci
+	}
+	began := time.Now()
+	defer func() { shrinkSpent += time.Since(began) }()
+	stillFails := func(x any) bool {
+		if shrinkSpent+time.Since(began) >= shrinkBudget {
+			return false
+		}
+		return stillFailsAll(x)
+	}
 	// a lost panic of a goroutine task may take the process down in the streamed form: its smaller
 	// variants are judged by the value-returning runs; so are those of any failure that showed in a
 	// value-returning run (a lost result would leave the streamed form without a stream to read)
@@ -2835,6 +2920,13 @@ func (engine) Shrink(ci any, stillFails func(any) bool) any {
 	if cur.Lazy {
 		t := cur
 		t.Lazy = false
+		if stillFails(&t) {
+			cur = t
+		}
+	}
+	if cur.ConfEdit != "" {
+		t := cur
+		t.ConfEdit = ""
 		if stillFails(&t) {
 			cur = t
 		}
